@@ -251,6 +251,23 @@ def _dipole_on(ctx, gname, isotopic_masses, dipole_moment_of_molecule):
                           f"dipole_moment_of_molecule on the {gname} grid = {got}, reference {ref}", {"route": "dipole", "natoms": len(charges), "grid": gname})
 
 
+def refill_histories(ctx):
+    """One grid instance, one function-value array and one centre array refilled in place between calls."""
+    rng = np.random.default_rng([ctx.seed, 141])
+    for gname in ("3d", "atom", "uniform"):
+        g = make_grid(gname, ctx.seed)
+        n = g.size
+        fa, fb = rng.normal(size=n), rng.normal(size=n)
+        ca, cb = rng.uniform(-0.5, 0.5, (2, 3)), rng.uniform(-0.5, 0.5, (2, 3))
+        for kind in ("cartesian", "radial", "pure", "pure-radial"):
+            with warnings.catch_warnings():
+                warnings.simplefilter("ignore")
+                lattice.refill_check(ctx, f"moments[{kind}]:{gname}", {"route": "refill"},
+                                     lambda f, c, kind=kind, g=g: g.moments(2, c, f, type_mom=kind),
+                                     (fa, ca), (fb, cb), fresh_fn=lambda f, c, kind=kind, gname=gname: make_grid(gname, ctx.seed).moments(2, c, f, type_mom=kind),
+                                     rtol=1e-12, atol=1e-13)
+
+
 def run(ctx):
     jobs = []
     for gname in ("1d", "2d", "3d", "atom"):
@@ -272,11 +289,14 @@ def run(ctx):
             res["samples"] = []
         ctx.merge(res)
     ctx.guarded("dipole", dipole, ctx)
+    ctx.guarded("refill", refill_histories, ctx)
     ctx.cov["configurations"] = len(jobs)
     ctx.exhaustive = True
 
 
 def replay(ctx, case):
+    if case.get("route") == "refill":
+        return refill_histories(ctx)
     if case.get("route") == "dipole":
         return dipole(ctx)
     ctx.merge(_case((case["grid"], case["type"], case["order"], case["centres"], ctx.seed)))
